@@ -9,6 +9,7 @@
 //@ anchor: serde_avro_fast/src/de/deserializer/types/length_delimited.rs :: pub\(super\) fn read_len<'de, R>\(
 //@ anchor: serde_avro_fast/src/de/deserializer/types/enums.rs :: pub\(in super::super\) fn read_enum_as_str<'de, R, V>\(
 //@ anchor: serde_avro_fast/src/de/deserializer/types/union.rs :: pub\(in super::super\) fn read_union_discriminant<'de, 's, R>\(
+//@ anchor: serde_avro_fast/src/de/deserializer/types/decimal.rs :: pub\(in super::super\) fn read_decimal<'de, R, V>\(
 //@ include: spec
 //@ include: common
 
@@ -943,6 +944,128 @@ fn c04_depth_zero_enum_access_sites() {
 	let input = &buf[..];
 	at_zero!(input, &N_LONG, deserialize_enum("E", &[]));
 	at_zero!(input, &N_DOUBLE, deserialize_enum("E", &[]));
+}
+
+// ---------------------------------------------------------------------------------------------
+// read_decimal, integer-hinted scale-0 path (target i128): the only path of read_decimal that
+// returns before rust_decimal (trusted dependency, A3) is entered.
+// ---------------------------------------------------------------------------------------------
+
+/// Frame obligation: on the integer-hinted scale-0 path `read_decimal` returns before rust_decimal
+/// is entered.  The stand-in asserts that it is NOT entered; the failed assertion also stops CBMC
+/// from symbolically executing rust_decimal's conversion and formatting code behind a call that the
+/// assertion has just shown unreachable (without it the harnesses do not finish).
+fn verif_unreachable_rust_decimal(_num: i128, scale: u32) -> Result<rust_decimal::Decimal, rust_decimal::Error> {
+	assert!(false, "OBL frame.integer_hint_scale0_never_enters_rust_decimal");
+	kani::assume(false);
+	Err(rust_decimal::Error::ScaleExceedsMaximumPrecision(scale))
+}
+
+macro_rules! decimal_fixed_i128 {
+	($name:ident, $size:expr, $inlen:expr) => {
+		#[kani::proof]
+		#[kani::unwind(19)]
+		#[kani::stub(alloc::fmt::format, stub_format)]
+		#[kani::stub(rust_decimal::Decimal::try_from_i128_with_scale, verif_unreachable_rust_decimal)]
+		fn $name() {
+			static DF: SchemaNode<'static> = decimal_fixed_node($size, 0);
+			let buf: [u8; $inlen] = kani::any();
+			let len: usize = kani::any();
+			kani::assume(len <= $inlen);
+			let input = &buf[..len];
+			let mut st = state_over(&DF, input);
+			let r = <i128 as Deserialize>::deserialize(st.deserializer());
+			if $size > 16 {
+				assert!(r.is_err(), "OBL C04.decimal_fixed.size_over_16_is_err");
+			} else if len >= $size {
+				assert!(matches!(r, Ok(v) if v == spec_twos_complement(&input[..$size])), "OBL C03.decimal_fixed.value_is_sign_extended_big_endian");
+				assert!(len - remaining(&mut st.reader) == $size, "OBL C03.decimal_fixed.consumes_fixed_size");
+			} else {
+				assert!(r.is_err(), "OBL C03.decimal_fixed.premature_end_is_err");
+			}
+			std::mem::forget(r);
+		}
+	};
+}
+
+//@ harness: c03_decimal_fixed0_i128
+//@   props: C03, C04, C01
+//@   tier: quick
+//@   kind: complete
+//@   fn: de::deserializer::types::decimal::read_decimal (DecimalMode::Regular, fixed(0), scale 0, VisitorHint::I128) via <i128 as Deserialize>; rust_decimal entry = frame obligation (not entered)
+//@   domain: every input of length 0..=1
+//@   post: a zero-size decimal decodes to 0 and consumes nothing - in particular no index past the 16-byte scratch buffer (panic freedom is an obligation)
+decimal_fixed_i128!(c03_decimal_fixed0_i128, 0, 1);
+
+//@ harness: c03_decimal_fixed1_i128
+//@   props: C03, C04, C01
+//@   tier: quick
+//@   kind: complete
+//@   fn: de::deserializer::types::decimal::read_decimal (fixed(1), scale 0, i128 target)
+//@   domain: every input of length 0..=2
+//@   post: Ok(v) iff one byte is available, v its sign-extended value (0x80..=0xFF negative), exactly one byte consumed; else Err
+decimal_fixed_i128!(c03_decimal_fixed1_i128, 1, 2);
+
+//@ harness: c03_decimal_fixed16_i128
+//@   props: C03, C04, C01
+//@   tier: quick
+//@   kind: complete
+//@   fn: de::deserializer::types::decimal::read_decimal (fixed(16), scale 0, i128 target)
+//@   domain: every input of length 0..=17
+//@   post: Ok(v) iff 16 bytes are available, v == the big-endian two's-complement i128 (all 2^128 values), exactly 16 bytes consumed; else Err
+decimal_fixed_i128!(c03_decimal_fixed16_i128, 16, 17);
+
+//@ harness: c03_decimal_fixed17_i128
+//@   props: C03, C04
+//@   tier: quick
+//@   kind: complete
+//@   fn: de::deserializer::types::decimal::read_decimal (fixed(17): wider than the 16-byte scratch buffer)
+//@   domain: every input of length 0..=18
+//@   post: Err (checked_sub), never a panic or an out-of-bounds write
+decimal_fixed_i128!(c03_decimal_fixed17_i128, 17, 18);
+
+//@ harness: c03_decimal_bytes_empty_i128
+//@   props: C03, C04, C01
+//@   tier: quick
+//@   kind: complete
+//@   fn: de::deserializer::types::decimal::read_decimal (DecimalMode::Regular, bytes, scale 0, VisitorHint::I128) via <i128 as Deserialize>: length prefix 0
+//@   domain: length prefix 0 followed by any byte
+//@   post: the empty two's-complement payload decodes to 0, exactly the prefix is consumed; no index past the 16-byte scratch buffer (panic freedom is an obligation). Payload lengths 1..=16 over bytes do not finish under CBMC (symbolic-length read_exact; attic note) - the same code path is discharged for fixed(1) and fixed(16)
+#[kani::proof]
+#[kani::unwind(19)]
+#[kani::stub(alloc::fmt::format, stub_format)]
+#[kani::stub(rust_decimal::Decimal::try_from_i128_with_scale, verif_unreachable_rust_decimal)]
+fn c03_decimal_bytes_empty_i128() {
+	static DB: SchemaNode<'static> = decimal_bytes_node(0);
+	let mut buf: [u8; 2] = kani::any();
+	buf[0] = 0;
+	let mut st = state_over(&DB, &buf[..]);
+	let r = <i128 as Deserialize>::deserialize(st.deserializer());
+	let consumed = 2 - remaining(&mut st.reader);
+	assert!(matches!(r, Ok(0)), "OBL C03.decimal.empty_payload_is_zero");
+	assert!(consumed == 1, "OBL C03.decimal.consumes_prefix_plus_payload");
+	std::mem::forget(r);
+}
+
+//@ harness: c04_decimal_bytes_negative_len
+//@   props: C03, C04
+//@   tier: quick
+//@   kind: complete
+//@   fn: de::deserializer::types::decimal::read_decimal -> read_len (bytes-backed decimal, negative length prefix)
+//@   domain: length prefix -1 followed by any two bytes
+//@   post: Err, never a panic
+#[kani::proof]
+#[kani::unwind(19)]
+#[kani::stub(alloc::fmt::format, stub_format)]
+#[kani::stub(rust_decimal::Decimal::try_from_i128_with_scale, verif_unreachable_rust_decimal)]
+fn c04_decimal_bytes_negative_len() {
+	static DB: SchemaNode<'static> = decimal_bytes_node(0);
+	let mut buf: [u8; 3] = kani::any();
+	buf[0] = 1; // zig-zag of -1
+	let mut st = state_over(&DB, &buf[..]);
+	let r = <i128 as Deserialize>::deserialize(st.deserializer());
+	assert!(r.is_err(), "OBL C04.decimal.negative_length_is_err");
+	std::mem::forget(r);
 }
 
 //@ harness: c03_de_cells_canary
